@@ -440,7 +440,40 @@ def guard_edges(body, pred_callees, polarity=True, receiver_key=None):
                 for sb, ts, fs in bool_uses(body, t['d'][0]):
                     if ts != fs:
                         edges.add((sb, ts if polarity else fs))
+        elif polarity and receiver_key is None and (c or '').endswith(('Option::is_some_and', 'Result::is_ok_and')) and len(t['args']) > 1:
+            # `opt.is_some_and(|x| pred(x))` is true only if the closure ran and pred returned true: its true edge is a
+            # true edge of pred (the false edge says nothing)
+            cl = None
+            for x in body.derived_from(op_local(t['args'][1]), through_mutation=False) if op_local(t['args'][1]) is not None else ():
+                for d in body.defs().get(x, ()):
+                    if d[1] == 'a' and d[2]['rv'][0] == 'agg' and d[2]['rv'][1][0] == 'closure':
+                        cl = body.prog.bodies.get(norm(d[2]['rv'][1][1]))
+            if cl is not None and _closure_returns_call(cl, pred_callees):
+                calls.append(bi)
+                if not t['d'][1]:
+                    for sb, ts, fs in bool_uses(body, t['d'][0]):
+                        if ts != fs:
+                            edges.add((sb, ts))
     return edges, calls
+
+
+def _closure_returns_call(cl, pred_callees):
+    """The closure's result is, on every path, the value returned by a call to one of pred_callees."""
+    pcs = [bi for bi, t, c in cl.calls() if bi in cl.reachable() and (c in pred_callees or callee_decl(t) in pred_callees)]
+    if not pcs:
+        return False
+    dests = {cl.term[bi]['d'][0] for bi in pcs if not cl.term[bi]['d'][1]}
+    if 0 in dests:
+        return all(cl.term[bi]['d'][0] == 0 for bi in pcs) and not any(st['k'] == 'a' and st['p'] == [0, []] for bi in cl.reachable() for st in cl.stmts(bi))
+    ok = False
+    for bi in cl.reachable():
+        for st in cl.stmts(bi):
+            if st['k'] == 'a' and st['p'] == [0, []]:
+                if st['rv'][0] == 'use' and op_local(st['rv'][1]) in dests:
+                    ok = True
+                else:
+                    return False
+    return ok
 
 
 def receiver_root_key(body, pl):
